@@ -219,7 +219,13 @@ func (g *Gen) float32() float32 {
 func (g *Gen) float64() float64 {
 	for {
 		var f float64
-		switch g.R.Intn(5) {
+		switch g.R.Intn(6) {
+		case 5:
+			// at most 24 significant bits, any exponent of the double range (also far outside float32's)
+			f = math.Ldexp(float64(g.R.Intn(1<<24)|1), g.R.Intn(2070)-1074)
+			if g.R.Intn(2) == 0 {
+				f = -f
+			}
 		case 0:
 			f = F64Table[g.R.Intn(len(F64Table))]
 		case 1:
